@@ -290,9 +290,12 @@ let lane_setup args =
         | PPreUnix -> "preunix"
       end
   | _ -> "BAD-ARGS"
+(* the names the lane's certificates list (tools/mkcerts.sh); whether the TLS library accepts a certificate for a name stays an oracle - the
+   model contributes which name is asked for (Setup.tls_name, repair F43) *)
+let sans_of cert = match cert with "trusted" -> ["localhost"; "127.0.0.1"; "::1"] | "dnsonly" -> ["localhost"] | "wrongname" -> ["other.example"] | _ -> ["localhost"; "127.0.0.1"; "::1"]
 let lane_tls args =
   match args with
-  | [scheme; stls; nov; connector; answer; cert; hs; _extra] ->
+  | [scheme; stls; nov; connector; answer; cert; hs; extra] ->
       let c = { ldaps = (scheme = "ldaps"); starttls1 = (stls = "1"); no_tls_verify = (nov = "1");
                 custom_connector_accepts_invalid = (if connector = "ca" then Some false else None) } in
       let ans = (match answer with "success" -> AnsSuccess | "garbage" -> AnsGarbage | "close" -> AnsClose | "otherid" -> AnsOtherIdFirst | "slam" -> AnsSlam | "greet" -> AnsGreetFirst
@@ -301,7 +304,7 @@ let lane_tls args =
       (* who wins the race between the driver task and the caller is not under the lane's control: the model is asked for both outcomes,
          which must agree (they do on the repaired turn: Tls.c04_slam_and_greet) *)
       let show df =
-        let sv = { answer = ans; cert_trusted_for_host = (cert = "trusted" && connector = "ca"); handshake_completes = (hs = "1"); driver_first = df; bytes_after_response = [] } in
+        let sv = { answer = ans; cert_trusted_for_host = (connector = "ca" && cert <> "selfsigned" && cert_names_match (List.map bytes_of_string (sans_of cert)) true (Some (bytes_of_string (if extra = "v6" then "[::1]" else "localhost")))); handshake_completes = (hs = "1"); driver_first = df; bytes_after_response = [] } in
         let r = establish true c sv in
         (match r.result1 with
          | Established Tls -> "ok transport=tls" | Established Clear -> "ok transport=clear" | Failed -> "err" | NeverReturns -> "hang") in
